@@ -43,7 +43,7 @@ def col_deps_impl(case, est, rng):
     return deps
 
 
-def oracle(case, rng, est=None):
+def _oracle(case, rng, est=None):
     """replace only the input columns: the lifted-state block must be bit-identical, and the output must
     have exactly episode + n_states_out_ + n_inputs_out_ columns"""
     try:
@@ -73,6 +73,13 @@ def oracle(case, rng, est=None):
     return None
 
 
+def oracle(case, rng, est=None):
+    try:
+        return _oracle(case, rng, est)
+    except Exception as ex:
+        return f'transform raised {type(ex).__name__}: {ex}'
+
+
 def run(ctx):
     ctx.rule = ('random lifting-function trees (all kinds, depth<=3) x dims x layouts; observation: the full '
                 'transform (tagged integers exact / symbolic terms rel 1e-9), the declared partition, and the '
@@ -94,7 +101,11 @@ def run(ctx):
         except Exception as e:
             ctx.count('rejected:' + st.err_enum(e))
             continue
-        Xt = est.transform(st.X_of(c))
+        try:
+            Xt = est.transform(st.X_of(c))
+        except Exception as ex:
+            ctx.mismatch(f'implementation raised {type(ex).__name__}: {ex} (model returns a matrix)', c, None, None)
+            continue
         l1, cells, reg = st.value_line('tr', c, est)
         l2, _, _ = st.value_line('tr', c, est, mode='dep')
         toks, _ = pipes.tokens(c['spec'], est)
